@@ -46,10 +46,10 @@ TIERS = {
             "controls": 1,
             "families": [
                 {"Mode": "full", "NMets": 2, "NRxns": 3, "Pal": "PalS", "Dirs": "DirsMax"},
-                {"Mode": "rand", "NMets": 3, "NRxns": 5, "Pal": "PalB", "Dirs": "DirsMax", "NWalks": 240},
-                {"Mode": "rand", "NMets": 2, "NRxns": 4, "Pal": "PalInf", "Dirs": "DirsMax", "NWalks": 100},
+                {"Mode": "rand", "NMets": 3, "NRxns": 5, "Pal": "PalB", "Dirs": "DirsMax", "NWalks": 200},
+                {"Mode": "rand", "NMets": 2, "NRxns": 4, "Pal": "PalInf", "Dirs": "DirsMax", "NWalks": 80},
             ],
-            "exact_every": 6,
+            "exact_every": 8,
         },
         "thorough": {
             "design": {"Mode": "full", "NMets": 2, "NRxns": 3, "Pal": "PalA", "Dirs": "DirsBoth"},
